@@ -202,7 +202,10 @@ def run_cases(cases):
     for c in cases:
         flat += c
     rc1, o1, e1 = run_side(HBIN, flat)
-    rc2, o2, e2 = run_side(DRIVER, flat)
+    # second pass input: some model ops take answers observed on the implementation (the congestion
+    # controller's return values, see DESIGN 3.3); the harness ignores those extra tokens
+    flat2 = props.augment(flat, o1) if len(o1) == len(flat) else flat
+    rc2, o2, e2 = run_side(DRIVER, flat2)
     res = []
     i = 0
     for c in cases:
